@@ -35,7 +35,7 @@ fn inspection(rng: &mut Rng) -> Inspect {
     let v = rng.pick(NUM_VARS);
     let w = rng.pick(NUM_VARS);
     let sv = rng.pick(STR_VARS);
-    match rng.below(26) {
+    match rng.below(27) {
         0..=2 => Inspect::Stmt(format!("PRINT {v}")),
         3 => Inspect::Stmt(format!("PRINT {v} + {w} * 2; {sv}")),
         4 => Inspect::Stmt(format!("PRINT ABS({v}) ; INT({w} / 3) ; RND(0)")),
@@ -61,6 +61,8 @@ fn inspection(rng: &mut Rng) -> Inspect {
         22 => Inspect::Stmt(format!("PRINT {v} : PRINT {w}")),
         23 => Inspect::Stmt(format!("PRINT {v} : PRINT 1 / 0 : PRINT {w}")),
         24 => Inspect::Stmt("REM : PRINT 1 : REM".into()),
+        // ill-typed cell assignments: refused, and nothing may be created on the way
+        25 => Inspect::Stmt(rng.pick(&["C(1) = \"x\"", "C$(1) = 5", "K(2) = \"y\"", "YZ(1, 1, 1) = \"z\"", "V(1, 1) = \"w\"", "C = \"x\"", "C$ = 5"]).to_string()),
         21 => Inspect::Redim(rng.pick(&["C", "V", "C$", "K", "YZ"]).to_string(), rng.pick(&[1u64, 3, 10, 12])),
         _ => Inspect::Stmt(format!("PRINT ({v}")),
     }
